@@ -25,7 +25,7 @@ pub fn info() -> PropInfo {
         id: "C19",
         run,
         replay,
-        rule: "cases = (sequence of events over all ten kinds, balanced or not, Eof only last; indent char in {space, tab, LF}; width 0..9; async sink schedule). (a) the indented output must parse, event by event, as [optional newline + indent characters] + exactly the plain bytes of that event, the optional part only before a markup event whose predecessor is not Text/CData; (b) reading both outputs and dropping whitespace-only text gives equal event streams; (c) the async writer produces the same bytes as the sync writer (plain and indented). Also serde: indented and plain serializations of generated values deserialize to equal values (stage serde). Non-trivial = the sequence has markup directly after text/CDATA and markup directly after markup.",
+        rule: "cases = (sequence of events over all ten kinds, balanced or not, Eof only last; indent char in {space, tab, LF}; width 0..9; async sink schedule). (a) the indented output must parse, event by event, as [optional newline + indent characters] + exactly the plain bytes of that event, the optional part only before a markup event whose predecessor is not Text/CData; (b) reading both outputs and dropping whitespace-only text gives equal event streams; (c) the async writer produces the same bytes as the sync writer (plain and indented). Also serde: indented and plain serializations of generated values deserialize to equal values (stage serde). Non-trivial = the sequence has markup directly after text/CDATA and markup directly after markup. The indenting writer is also run through a synchronous sink with partial (plain / vectored) and interrupted writes: same bytes as into a Vec.",
         assumptions: &["event payloads are built through the public constructors within their preconditions (text escaped, comment/PI/CDATA content free of their terminators) so that reading back is meaningful", "insertion is optional wherever it is allowed; the amount of indentation is not asserted"],
         level: "exploration",
         variants: &["full"],
